@@ -276,7 +276,7 @@ func sigValidateGates(c *an.Check) {
 
 func init() {
 	register(&Def{ID: "C01", Pkgs: []string{"./peer"}, Run: c01,
-		Explain:     "Decides structural necessary conditions of C01 on the SSA of package peer: (R1) SignedMsg.ExtractAndVerify, SignedMsg.Verify, SignedMsg.ExtractPubKey, Signature.VerifyWithPublic and Signature.Validate can reach a non-error return (or the key's Verify call) only on paths on which each listed rejection test passed; (R2a) a failing Signature.Validate / ExtractPubKey / Verify inside ExtractAndVerify never leads to a return whose error is known nil; (PROVENANCE) the key verified against is the one extracted from the message's own sender field, over the message's own body with the caller's context. The Ed25519 leg: a parsed public key is exactly 32 bytes and Ed25519PublicKey.Verify reports a valid signature only for keys that are not of small order, the verdict being ed25519.Verify(k, data, sig). Shared with every signature-verifying check: the small-order classifier itself (TABLE, SIGNBIT, ACCUMULATE), crypto.UnmarshalPublicKey succeeds only past the protobuf decode, and Signature.VerifyWithPublic verifies with the caller's key over the signature's own bytes.",
+		Explain:     "Decides structural necessary conditions of C01 on the SSA of package peer: (R1) SignedMsg.ExtractAndVerify, SignedMsg.Verify, SignedMsg.ExtractPubKey, Signature.VerifyWithPublic and Signature.Validate can reach a non-error return (or the key's Verify call) only on paths on which each listed rejection test passed; (R2a) a failing Signature.Validate / ExtractPubKey / Verify inside ExtractAndVerify never leads to a return whose error is known nil; (PROVENANCE) the key verified against is the one extracted from the message's own sender field, over the message's own body with the caller's context. The Ed25519 leg: a parsed public key is exactly 32 bytes and Ed25519PublicKey.Verify reports a valid signature only for keys that are not of small order, the verdict being ed25519.Verify(k, data, sig). Shared with every signature-verifying check: the small-order classifier itself (TABLE, SIGNBIT, ACCUMULATE), crypto.UnmarshalPublicKey succeeds only past the protobuf decode, and Signature.VerifyWithPublic verifies with the caller's key over the signature's own bytes. (NILDEREF) in the signed-message verification functions a possibly-absent sub-message is dereferenced only where it is known present; the key that verifies is parsed by the unmarshaller registered for the key type its own encoding declares, into a zero message; (GATE) ID.ExtractPublicKey hands out a key only when the id is the canonical id of that key.",
 		NotCov:      "Ed25519 soundness, the value-level statement that any byte change is rejected, and panic-freedom of third-party decoders (base58, protobuf) are not decided here; bounds-check obligations of the in-repo decoders are decided under C40/C10.",
 		Assumptions: commonAssumptions})
 }
